@@ -21,7 +21,8 @@ from menpo.landmark import labeller as labeller_via_manager
 from menpo.shape import LabelledPointUndirectedGraph, PointCloud, PointUndirectedGraph, TriMesh
 
 NAMES = ["a", "jaw", "left_eye", "øye", "眉毛", "nose_bridge_long_label_name", "Ωmega", "b2",
-         "mouth", "right-eye", "x" * 40, "é", "chin", "Z", "left_eyebrow", "\U0001F600"]
+         "mouth", "right-eye", "x" * 40, "é", "chin", "Z", "left_eyebrow", "\U0001F600",
+         "all", "", "None"]      # names that mean something elsewhere in menpo are names like any other here
 POOL = 4
 
 LABELLERS = sorted(n for n in dir(ML) if callable(getattr(ML, n)) and hasattr(getattr(ML, n), "group_label")
